@@ -682,6 +682,10 @@ func (c *Compiler) ExpandModules() (err error) {
 		r := module.GetModule()
 		g.AddVertex(mn)
 		for _, i := range r.ChildrenByType(parse.NodeImport) {
+			if i.Name() == r.Name() {
+				// the shortest import cycle (not seen by the sort)
+				c.error(i, fmt.Errorf("module %s imports itself", mn))
+			}
 			g.AddEdge(mn, i.Name())
 		}
 	}
